@@ -25,6 +25,8 @@ def c08(chk):
     chk.assumptions = ["equality of bytes and headers is compared by the harness (hash / field by field); TLC sees "
                        "the list of differing fields", "hop-by-hop headers, X-Forwarded-For and x-piko-forward are "
                        "not part of the comparison", "no-hang limit = timeout + 1.5 s",
+                       "a transparent exchange that piko answers with 504 after its 300 ms timeout is repeated (twice at "
+                       "most) before it is judged; many such repeats = no verdict (starved machine)",
                        "the agent is configured with http_client.disable_compression: true (with the documented "
                        "default its transport negotiates gzip with the local service on its own)"]
     with vp.Scratch("mc-C08") as d:
@@ -36,6 +38,10 @@ def c08(chk):
     v, st = engine.run(chk, "peng", {"mode": "c08", "sample": 300 if quick else 40000}, "http", "TraceH", {},
                        ["NoStepViolation"], "peng-http", what="the real proxy", strip=(), timeout=3400)
     chk.notes["executed_calls_by_action"] = st.get("by_op")
+    chk.notes["transparent_exchanges_repeated_after_a_genuine_504"] = st.get("timeout_retries", 0)
+    if st.get("timeout_retries", 0) > max(5, st.get("steps", 0) // 200):
+        raise vp.Machinery("%d transparent exchanges ran into the 300 ms proxy timeout of the test nodes: the machine is "
+                           "too starved for a verdict" % st.get("timeout_retries", 0))
     chk.nontrivial = st.get("distinct_outcomes", 0)
     chk.rule += "; distinct_nontrivial = distinct (status, served) outcomes"
     if st.get("by_op", {}).get("Http", 0) == 0:
